@@ -2,4 +2,4 @@ Require Extraction.
 Require Import ExtrOcamlBasic.
 From LedgerV Require Import Base.Prelude Base.Round Base.ExtractHelpers Model.Amount Model.Xact Model.PostLine.
 Extraction "model_C01.ml" h_add h_mul h_div h_mod h_opp h_ltb h_eqb h_qred h_qmake h_qnum h_qden
-  run_journal cost_per_unit cost_total finalize split_post_line has_amount_text.
+  run_journal cost_per_unit cost_total finalize split_post_line has_amount_text read_post_line.
